@@ -219,6 +219,10 @@ def sampling(draw, in_shape, per_axis=True):
     dx_c = dx_r * (draw(finite(0.5, 2.0)) if per_axis and draw(st.booleans()) else 1.0)
     q_r = draw(finite(0.05, 1.5))      # alpha * n
     q_c = q_r * (draw(finite(0.5, 2.0)) if per_axis and draw(st.booleans()) else 1.0)
+    if per_axis and draw(st.integers(0, 7)) == 0:
+        # per-axis values that nearly coincide (equal, ulps apart, 1e-12..1e-3 apart)
+        dx_c = draw(near(dx_r))
+        q_c = draw(near(q_r)) * in_shape[1] / in_shape[0] if draw(st.booleans()) else q_c
     a_r = q_r / in_shape[0]
     a_c = q_c / in_shape[1]
     du_r = a_r * wl * z * os_ / dx_r
@@ -337,3 +341,68 @@ INT_TYPES = ["python", "python", "int64", "int32", "int16", "uint8", "uint16", "
 def typed_int(v, selector):
     """v as one of INT_TYPES chosen by an integer selector already present in the case (value-preserving)"""
     return typed_scalar(int(v), INT_TYPES[int(selector) % len(INT_TYPES)])
+
+
+# ---------------------------------------------------------------------------------------------------
+# nearly coinciding values: equal, a few ulps apart, or a small relative step apart
+
+NEAR_STEPS = [0.0, 1e-3, 1e-4, 1e-5, 3e-6, 1e-6, 1e-7, 1e-8, 1e-10, 1e-12]
+
+
+@st.composite
+def near(draw, a):
+    """a value equal to ``a``, a few ulps from it, or 1e-12 .. 1e-3 (relative) away, on either side"""
+    step = draw(st.sampled_from(NEAR_STEPS + ["ulp", "ulp2"]))
+    sign = draw(st.sampled_from([-1.0, 1.0]))
+    if step == "ulp":
+        return float(np.nextafter(a, a + sign * abs(a) + sign))
+    if step == "ulp2":
+        b = float(np.nextafter(a, a + sign * abs(a) + sign))
+        return float(np.nextafter(b, b + sign * abs(b) + sign))
+    return float(a * (1.0 + sign * step))
+
+
+# ---------------------------------------------------------------------------------------------------
+# frames of more than a million samples with sizes of no special form (not powers of two, not round numbers)
+
+@st.composite
+def mega_shape(draw):
+    kind = draw(st.sampled_from(["squarish", "squarish", "tall", "wide"]))
+    if kind == "squarish":
+        m = draw(st.integers(1030, 1500))
+        n = draw(st.integers(2**20 // m + 1, 1500))
+    else:
+        m = draw(st.integers(2050, 3000))
+        n = draw(st.integers(2**20 // m + 1, 900))
+        if kind == "wide":
+            m, n = n, m
+    return (m, n)
+
+
+# ---------------------------------------------------------------------------------------------------
+# container types of list-like arguments (same elements, same order where order matters)
+
+def as_container(items, selector, ordered=True):
+    """items as a list / tuple / ndarray / range (when an arithmetic progression of ints) / set / frozenset / deque /
+    dict keys, chosen by an integer selector; unordered containers only when ``ordered`` is False"""
+    import collections
+    items = list(items)
+    forms = ["list", "tuple", "ndarray", "range", "deque", "dict_keys"] + ([] if ordered else ["set", "frozenset"])
+    f = forms[int(selector) % len(forms)]
+    if f == "tuple":
+        return tuple(items), f
+    if f == "ndarray" and items:
+        return np.asarray(items), f
+    if f == "range" and len(items) >= 1 and all(isinstance(i, (int, np.integer)) for i in items):
+        step = items[1] - items[0] if len(items) > 1 else 1
+        if step > 0 and all(b - a == step for a, b in zip(items, items[1:])):
+            return range(items[0], items[-1] + 1, step), f
+    if f == "deque":
+        return collections.deque(items), f
+    if f == "dict_keys" and len(set(items)) == len(items):
+        return dict.fromkeys(items).keys(), f
+    if f == "set":
+        return set(items), f
+    if f == "frozenset":
+        return frozenset(items), f
+    return items, "list"
